@@ -435,6 +435,13 @@ class _ExprCanon(ast.NodeTransformer):
     def visit_Call(self, node):
         self.generic_visit(node)
         f = node.func
+        # a method applied to a conditional receiver is the conditional of the method applied to each arm: (A if c else B).m(x) = A.m(x) if c else B.m(x)
+        if isinstance(f, ast.Attribute) and isinstance(f.value, ast.IfExp) and not node.keywords \
+                and all(isinstance(a, (ast.Name, ast.Constant)) for a in node.args):
+            import copy as _copy
+            arms = [ast.copy_location(ast.Call(func=ast.Attribute(value=arm, attr=f.attr, ctx=ast.Load()), args=[_copy.deepcopy(a) for a in node.args], keywords=[]), node)
+                    for arm in (f.value.body, f.value.orelse)]
+            return ast.copy_location(ast.IfExp(test=f.value.test, body=self.visit_Call(arms[0]), orelse=self.visit_Call(arms[1])), node)
         fn = ast.unparse(f)
         if fn in ("torch.neg",) and len(node.args) == 1 and not node.keywords:
             return ast.copy_location(ast.UnaryOp(op=ast.USub(), operand=node.args[0]), node)
